@@ -98,7 +98,8 @@ theorem lastOrDefaultO_nat (d : Option α) :
     cases seen <;> cases d <;> cases v <;> simp
 
 theorem firstOrDefaultO_nat (d : Option α) : Op.Nat (firstOrDefaultO d) (firstOrDefaultO (d.map ρ)) ρ ρ id :=
-  ⟨rfl, fun s n => by cases n <;> cases d <;> simp [Op.handle, firstOrDefaultO, Notif.map, mapN], fun s n => rfl⟩
+  ⟨rfl, fun (s : Bool) n => by cases s <;> cases n <;> cases d <;> simp [Op.handle, firstOrDefaultO, Notif.map, mapN],
+   fun (s : Bool) n => by cases s <;> cases n <;> cases d <;> simp [Op.handle, firstOrDefaultO, Notif.map]⟩
 
 theorem singleOrDefaultO_nat (d : Option α) :
     Op.Nat (singleOrDefaultO d) (singleOrDefaultO (d.map ρ)) ρ ρ (fun s => (s.1.map ρ, s.2)) := by
@@ -113,7 +114,8 @@ theorem singleOrDefaultO_nat (d : Option α) :
     · cases seen <;> cases d <;> cases v <;> simp
 
 theorem someOp_nat : Op.Nat (someOp : Op α Bool) (someOp : Op α' Bool) ρ id id :=
-  ⟨rfl, fun s n => by cases n <;> simp [Op.handle, someOp, Notif.map, mapN], fun s n => rfl⟩
+  ⟨rfl, fun (s : Bool) n => by cases s <;> cases n <;> simp [Op.handle, someOp, Notif.map, mapN],
+   fun (s : Bool) n => by cases s <;> cases n <;> simp [Op.handle, someOp, Notif.map]⟩
 
 theorem toListO_nat : Op.Nat (toListO : Op α (List α)) (toListO : Op α' (List α')) ρ (List.map ρ) (List.map ρ) :=
   ⟨rfl, fun (s : List α) n => by cases n <;> simp [Op.handle, toListO, Notif.map, mapN],
